@@ -39,6 +39,10 @@ def run(out, tier, seed):
         calls = [rng.choice(["k1", "k2", "s1", "e1", "e3"]) for _ in range(rng.randint(1, 3))]
         cases.append({"id": len(cases), "src": "nested2", "target": rng.choice(["k1", "k2", "e1"]), "target2": rng.choice(["k2", "s1", "e3"]),
                       "calls": calls, "method": "tree", "path": "nested2", "via": [True] * len(calls)})
+    # a third of the cases are written without env=, inside a function whose locals shadow same-named globals
+    for c in cases:
+        if c["src"] != "tlc-exhaustive" and rng.random() < 0.35 or c["src"] == "tlc-exhaustive" and rng.random() < 0.2:
+            c["scope"] = "local"
     cin, cout = os.path.join(work, "rc.json"), os.path.join(work, "rt.json")
     json.dump(cases, open(cin, "w"))
     core.run_driver("harness.drivers.recv_driver", [cin, cout])
